@@ -1040,6 +1040,34 @@ def gen_pseudoblank_formula(rng):
   return f
 
 
+# -- formulas whose TRANSLATION (lambda wrapping of lazily evaluated arguments, inserted `return`) decides whether
+#    they are valid; most without `$` and without the letters "rec", some with them as control ----------------
+
+LAZY_CALLS = ['IF(True, {X})', 'IF(True, 1, {X})', 'IF({X})', 'IFERROR({X})', 'IFERROR({X}, 0)', 'ISERR({X})',
+              'ISERROR({X})', 'PEEK({X})', 'IF(1 > 2, {X}, 3)', 'IFERROR(IF(True, {X}))', 'max(IF(True, {X}), 0)']
+LAZY_ARGS = ['*[1, 2]', '*args', '*[1 / 0]', '**{}', '**kw', 'x for x in [1]', '*(1, 2)', '*[]', '1 / 0', '[1, 2]',
+             '(x for x in [1])', '*"ab"', 'lambda: 1', '(yield)', 'y := 5', '*[1], *[2]', '1, *[2]']
+LAST_STMTS = ['yield 5', 'yield', 'yield from [1]', '(yield 5)', 'x = 1\nyield x', 'await f()', 'yield 5, 6',
+              'lambda: (yield)', '[1]\nyield', 'print(1)\nyield from ()', 'x = yield 5', 'yield\n1']
+
+
+def gen_lazy_formula(rng):
+  k = rng.random()
+  if k < 0.65:
+    f = rng.choice(LAZY_CALLS).replace('{X}', rng.choice(LAZY_ARGS))
+    if rng.random() < 0.4:
+      f = rng.choice(['args = [1]\n', 'kw = {}\nargs = [1, 2]\n', 'x = 1\n']) + f
+  else:
+    f = rng.choice(LAST_STMTS)
+  if rng.random() < 0.25:            # the same with `$` / `rec` in the text (control)
+    f = rng.choice(['# $A\n', 'r = rec\n', 'x = $A\n']) + f
+  return f
+
+
+LAZY_LISTED = ['IF(True, *[1, 2])', 'args = [1]\nIFERROR(*args)', 'ISERR(*[1 / 0])', 'yield 5', 'yield from [1]',
+               'PEEK(*[1])', 'IF(True, *[1, 2]) # $A', 'x = $A\nyield x']
+
+
 def restyle(rng, f, style):
   """Line-end style and shared indentation."""
   eol, ind = style
@@ -1085,16 +1113,19 @@ def gen_formula(rng):
   elif r < 0.62:
     f = gen_mlformula(rng)
     tag = 'multi-line-literal'
-  elif r < 0.70:
+  elif r < 0.68:
     f = gen_pseudoblank_formula(rng)
     tag = 'pseudo-blank-line'
-  elif r < 0.77:
+  elif r < 0.75:
+    f = gen_lazy_formula(rng)
+    tag = 'translation-decides'
+  elif r < 0.80:
     base = rng.choice(EXPRS + STMTS).replace('{E}', rng.choice(EXPRS)).replace('{F}', '2')
     f = mutate(rng, base)
     if rng.random() < 0.3:
       f = mutate(rng, f)
     tag = 'mutated'
-  elif r < 0.86:
+  elif r < 0.87:
     f = rng.choice(INVALID)
     tag = 'invalid'
   elif r < 0.90:
@@ -1120,7 +1151,7 @@ LISTED = ['x = 1\rreturn x', 'foo(\rbar', '"""a\n    \nb"""', '  x = $A\r\n\r\n 
 def search(ctx):
   rng = ctx.rng
   n = ctx.n(260, 6000)
-  formulas = [(f, 'listed') for f in LISTED + ML_LISTED + PB_LISTED] + [gen_formula(rng) for _ in range(n)]
+  formulas = [(f, 'listed') for f in LISTED + ML_LISTED + PB_LISTED + LAZY_LISTED] + [gen_formula(rng) for _ in range(n)]
   doc = None
   used = 0
   path = 'modify'
